@@ -914,6 +914,13 @@ package priority
 //@ ghost var gSMainStarted bool [C16]
 //@ event go priority.(*Simple).main
 //@   effect gSMainStarted := true
+//@ func SimpleOpts.isValid
+//@   ensures [*] (result == nil) <==> (opts.Handle != nil && len(opts.Inputs) != 0)
+
+//@ func SimpleOpts.normalize
+//@   ensures [*] result.Divider == opts.Divider && result.Handle == opts.Handle && result.HandlersQuantity == opts.HandlersQuantity && result.Inputs == opts.Inputs
+//@   ensures [*] result.Ctx != nil
+
 //@ func NewSimple
 //@   requires [C05] saturation-is-stated-for-buffered-inputs: forall k :: dom(opts.Inputs, k) ==> cap(opts.Inputs[k]) != 0
 //@   requires [*] ghost-initial-state: !gSMainStarted && gSSpawned == 0 && !gSWaited && !gSCancelled && !gSInnerStop
